@@ -1,31 +1,611 @@
-"""translator for C18: every function of the library whose body tests is_compiling() (ast only).
-A site is (file, qualified function name); the Coq side classifies each known site (dual helper modelled / guard that only
-skips eager-only bookkeeping / nn-module plumbing) and proves that no unclassified site exists."""
+"""translator for C18 (pure `ast`, never imports the code it reads; fail-closed).
+
+1. `compile_sites`: every function of the library whose body calls is_compiling()  (file, qualified name) -- as before.
+2. `site_shapes`: for every such function, and for every function that RECEIVES the flag through a keyword parameter
+   (`_propagate_lock(..., is_compiling=flag)`), the two specialisations of its body -- flag := True (compile) and
+   flag := False (eager) -- obtained by partial evaluation:
+     * flag uses: the call `is_compiling()`, a local `v = is_compiling()`, a parameter named is_compiling / is_dynamo
+       (with the default idiom `if p is None: p = is_compiling()`);
+     * `if`/conditional expressions whose test folds to a constant are replaced by the selected arm; `A and flag`,
+       `A or flag`, `not flag` are folded in test position only, and a dropped operand must be syntactically pure;
+     * code after an unconditional return/raise in a spliced arm is pruned.
+   Each specialisation is linearised into tokens:
+     TVal s    a value-carrying statement (normalised `ast.dump`, or `#sha1` of it for statements shared by both arms
+               or longer than 300 characters),
+     TOpen s / TElse / TClose   a compound statement kept in the residual (header dump),
+     TBk l d   a statement (or `with` header, or a whole `if` block with a pure test) that exists in one arm only and
+               has the syntactic form of bookkeeping: l lists (category, name) pairs -- call / store / with / wraps /
+               refuse -- which the Coq side checks against its allow-list.
+   A use of the flag that none of the rules understands leaves the constant in the dump (the two sides then differ) and is
+   also recorded in `s_opaque`.
+The Coq predicate `guard_shape_ok` (Model/C18_SiteShape.v) compares the TVal/TOpen/TElse/TClose streams of the two
+sides and checks every TBk pair against the allow-list; Props/C18.v proves it for every site classified Guard."""
 import ast
+import copy
+import hashlib
 import os
 
 from .core import COQ, REPO
-from .translate import TranslateError, coq_list, coq_str, translator, write_if_changed
+from .translate import TranslateError, translator, write_if_changed
 
 SKIP_DIRS = {"csrc", "__pycache__"}
+FLAG_FN = "is_compiling"
+FLAG_PARAMS = ("is_compiling", "is_dynamo")
+# calls allowed inside an operand that is dropped when a test is folded (`X or True` -> True)
+PURE_CALLS = {"isinstance", "len", "skip_existing", "is_initialized", "getattr", "hasattr"}
+FUNC_T = (ast.FunctionDef, ast.AsyncFunctionDef)
+SCOPE_T = (ast.FunctionDef, ast.AsyncFunctionDef, ast.ClassDef, ast.Lambda)
 
 
-def sites_of(path, rel):
-    tree = ast.parse(open(path).read())
-    out = set()
+# ------------------------------------------------------------------ small helpers
+def is_flag_call(n):
+    if isinstance(n, ast.Call) and not n.args and not n.keywords:
+        f = n.func
+        name = f.id if isinstance(f, ast.Name) else (f.attr if isinstance(f, ast.Attribute) else None)
+        return name == FLAG_FN
+    return False
+
+
+def any_flag_call(n):
+    """any call named is_compiling (with or without arguments) -- the site list of the first table"""
+    if isinstance(n, ast.Call):
+        f = n.func
+        name = f.id if isinstance(f, ast.Name) else (f.attr if isinstance(f, ast.Attribute) else None)
+        return name == FLAG_FN
+    return False
+
+
+def marker(b):
+    c = ast.Constant(value=bool(b))
+    c._flag = True
+    return c
+
+
+def is_marker(n):
+    return isinstance(n, ast.Constant) and getattr(n, "_flag", False)
+
+
+def dotted(e):
+    """a.b.c for a pure Name/Attribute chain (leading `self.` removed), else None"""
+    parts = []
+    while isinstance(e, ast.Attribute):
+        parts.append(e.attr)
+        e = e.value
+    if not isinstance(e, ast.Name):
+        return None
+    parts.append(e.id)
+    parts.reverse()
+    if len(parts) > 1 and parts[0] in ("self", "_self", "cls"):
+        parts = parts[1:]
+    return ".".join(parts)
+
+
+def pure(e):
+    if isinstance(e, (ast.Name, ast.Constant)):
+        return True
+    if isinstance(e, ast.Attribute):
+        return pure(e.value)
+    if isinstance(e, ast.UnaryOp):
+        return pure(e.operand)
+    if isinstance(e, ast.BoolOp):
+        return all(pure(v) for v in e.values)
+    if isinstance(e, ast.Compare):
+        return pure(e.left) and all(pure(c) for c in e.comparators)
+    if isinstance(e, ast.Subscript):
+        return pure(e.value) and pure(e.slice)
+    if isinstance(e, ast.Call):
+        d = dotted(e.func)
+        return (d is not None and d.split(".")[-1] in PURE_CALLS and all(pure(a) for a in e.args)
+                and all(pure(k.value) for k in e.keywords))
+    return False
+
+
+class Norm(ast.NodeTransformer):
+    """semantic-preserving normalisation applied before dumping:
+       [x for x in E] -> list(E), {x for x in E} -> set(E) (identity comprehensions); annotated assignment -> assignment"""
+
+    def _ident(self, node, ctor):
+        self.generic_visit(node)
+        if (len(node.generators) == 1 and not node.generators[0].ifs and not node.generators[0].is_async
+                and isinstance(node.generators[0].target, ast.Name) and isinstance(node.elt, ast.Name)
+                and node.elt.id == node.generators[0].target.id):
+            return ast.Call(func=ast.Name(id=ctor, ctx=ast.Load()), args=[node.generators[0].iter], keywords=[])
+        return node
+
+    def visit_ListComp(self, node):
+        return self._ident(node, "list")
+
+    def visit_SetComp(self, node):
+        return self._ident(node, "set")
+
+    def visit_AnnAssign(self, node):
+        self.generic_visit(node)
+        if node.value is not None and node.simple:
+            return ast.Assign(targets=[node.target], value=node.value)
+        return node
+
+
+def dump(node):
+    n = Norm().visit(copy.deepcopy(node))
+    return ast.dump(n, annotate_fields=True, include_attributes=False)
+
+
+def short(s, always=False):
+    if always or len(s) > 300:
+        return "#" + hashlib.sha1(s.encode()).hexdigest()[:16] + "|" + s[:(60 if always else 100)]
+    return s
+
+
+def header_dump(st):
+    """dump of a compound statement without its blocks"""
+    c = copy.copy(st)
+    for f in ("body", "orelse", "finalbody"):
+        if hasattr(c, f):
+            setattr(c, f, [])
+    if isinstance(c, ast.Try):
+        c.handlers = []
+    return dump(c)
+
+
+# ------------------------------------------------------------------ partial evaluation of one function
+class Site:
+    def __init__(self, rel, qual, origin):
+        self.rel, self.qual, self.origin = rel, qual, origin
+        self.shapes, self.opaque, self.forwards, self.dropped = [], [], [], []
+        self.tok = {True: [], False: []}
+
+
+class Spec:
+    def __init__(self, fn, site, flagvars):
+        self.fn, self.site, self.flagvars = fn, site, flagvars
+        self.uses = 0
+
+    # ---- expressions
+    def is_use(self, e):
+        return is_flag_call(e) or (isinstance(e, ast.Name) and isinstance(e.ctx, ast.Load) and e.id in self.flagvars)
+
+    def subst(self, e, b, test=False):
+        """copy of e with flag uses replaced; [test]: e is in test position (boolean folding allowed)"""
+        if e is None:
+            return None
+        if self.is_use(e):
+            self.uses += 1
+            return marker(b)
+        if isinstance(e, SCOPE_T):
+            for n in ast.walk(e):
+                if isinstance(n, ast.Name) and n.id in self.flagvars:
+                    self.site.opaque.append("closure-use")
+            return e
+        if isinstance(e, ast.IfExp):
+            t = self.subst(e.test, b, test=True)
+            if is_marker(t):
+                if b:
+                    self.site.shapes.append("ifexp")
+                return self.subst(e.body if t.value else e.orelse, b, test)
+            return ast.IfExp(test=t, body=self.subst(e.body, b), orelse=self.subst(e.orelse, b))
+        if test and isinstance(e, ast.UnaryOp) and isinstance(e.op, ast.Not):
+            x = self.subst(e.operand, b, test=True)
+            return marker(not x.value) if is_marker(x) else ast.UnaryOp(op=e.op, operand=x)
+        if test and isinstance(e, ast.BoolOp):
+            absorbing = isinstance(e.op, ast.Or)        # Or: True absorbs; And: False absorbs
+            new = []
+            for v in e.values:
+                x = self.subst(v, b, test=True)
+                if is_marker(x):
+                    if x.value == absorbing:
+                        if all(pure(y) for y in new):
+                            if b:
+                                self.site.dropped.extend(short(dump(y)) for y in new)
+                            return marker(absorbing)
+                        new.append(x)                    # impure operand before it: leave unreduced (sides will differ)
+                        self.site.opaque.append("impure-operand-before-flag")
+                    # neutral element: dropped
+                else:
+                    new.append(x)
+            if not new:
+                return marker(not absorbing)
+            return new[0] if len(new) == 1 else ast.BoolOp(op=e.op, values=new)
+        if isinstance(e, ast.Call):
+            kws = []
+            for k in e.keywords:
+                if self.is_use(k.value) and k.arg in FLAG_PARAMS:
+                    # the statement is the same on both sides (the callee is analysed as a site of its own)
+                    callee = dotted(e.func) or "?"
+                    if b:
+                        self.site.forwards.append((callee.split(".")[-1], k.arg))
+                        self.site.shapes.append("forward-kw")
+                    kws.append(ast.keyword(arg=k.arg, value=ast.Name(id="FLAG", ctx=ast.Load())))
+                else:
+                    kws.append(ast.keyword(arg=k.arg, value=self.subst(k.value, b)))
+            return ast.Call(func=self.subst(e.func, b), args=[self.subst(a, b) for a in e.args], keywords=kws)
+        # generic: rebuild the node with substituted children
+        new = copy.copy(e)
+        for f, v in ast.iter_fields(e):
+            if isinstance(v, ast.AST):
+                setattr(new, f, self.subst(v, b) if isinstance(v, (ast.expr, ast.comprehension, ast.keyword, ast.withitem, ast.arguments, ast.arg)) else v)
+            elif isinstance(v, list):
+                setattr(new, f, [self.subst(x, b) if isinstance(x, ast.AST) else x for x in v])
+        return new
+
+    # ---- statements -> residual tree
+    def flagvar_def(self, st):
+        return (isinstance(st, ast.Assign) and len(st.targets) == 1 and isinstance(st.targets[0], ast.Name)
+                and st.targets[0].id in self.flagvars and is_flag_call(st.value))
+
+    def param_default(self, st):
+        return (isinstance(st, ast.If) and not st.orelse and len(st.body) == 1 and self.flagvar_def(st.body[0])
+                and isinstance(st.test, ast.Compare) and isinstance(st.test.left, ast.Name)
+                and st.test.left.id == st.body[0].targets[0].id and len(st.test.ops) == 1
+                and isinstance(st.test.ops[0], ast.Is) and isinstance(st.test.comparators[0], ast.Constant)
+                and st.test.comparators[0].value is None)
+
+    def stmts(self, lst, b, arm):
+        out = []
+        for st in lst:
+            out.extend(self.stmt(st, b, arm))
+            if out and out[-1]["kind"] == "simple" and isinstance(out[-1]["st"], (ast.Return, ast.Raise, ast.Continue, ast.Break)):
+                break                                   # the rest of this block is unreachable
+        return out
+
+    def stmt(self, st, b, arm):
+        if self.flagvar_def(st):
+            if b:
+                self.site.shapes.append("flagvar")
+            return []
+        if self.param_default(st):
+            if b:
+                self.site.shapes.append("param-default")
+            return []
+        if isinstance(st, ast.Pass):
+            return []
+        if isinstance(st, SCOPE_T):
+            self.subst(st, b)
+            return [dict(kind="simple", st=st, arm=arm, dep=False)]
+        u0 = self.uses
+        if isinstance(st, ast.If):
+            t = self.subst(st.test, b, test=True)
+            if is_marker(t):
+                chosen = st.body if t.value else st.orelse
+                if b:
+                    pos = self._polarity(st.test)
+                    lab = "if" + ("" if pos else "-not") + ("-else" if st.orelse else "-noelse")
+                    if not (isinstance(st.test, ast.Call) or isinstance(st.test, ast.Name)
+                            or (isinstance(st.test, ast.UnaryOp) and self.is_use(st.test.operand))):
+                        lab += "-boolop"
+                    comp_arm = st.body if pos else st.orelse
+                    eag_arm = st.orelse if pos else st.body
+                    for nm, a in (("compile", comp_arm), ("eager", eag_arm)):
+                        if a and isinstance(a[-1], (ast.Return, ast.Raise)):
+                            lab += f"+{nm}-arm-exits"
+                    self.site.shapes.append(lab)
+                return self.stmts(chosen, b, True)
+            dep = self.uses > u0
+            if dep and b:
+                self.site.shapes.append("if-partial-test")
+            a2 = arm or dep
+            return [dict(kind="compound", st=st, hdr=ast.If(test=t, body=[], orelse=[]), arm=a2, dep=dep,
+                         blocks=[self.stmts(st.body, b, a2), self.stmts(st.orelse, b, a2)])]
+        if isinstance(st, (ast.For, ast.AsyncFor, ast.While, ast.With, ast.AsyncWith, ast.Try)):
+            hdr = copy.copy(st)
+            blocks = []
+            if isinstance(st, (ast.For, ast.AsyncFor)):
+                hdr.iter = self.subst(st.iter, b)
+            elif isinstance(st, ast.While):
+                hdr.test = self.subst(st.test, b)
+            elif isinstance(st, (ast.With, ast.AsyncWith)):
+                hdr.items = [ast.withitem(context_expr=self.subst(i.context_expr, b), optional_vars=i.optional_vars) for i in st.items]
+            dep = self.uses > u0
+            a2 = arm
+            if isinstance(st, ast.Try):
+                blocks = [self.stmts(st.body, b, a2)] + [self.stmts(h.body, b, a2) for h in st.handlers] \
+                    + [self.stmts(st.orelse, b, a2), self.stmts(st.finalbody, b, a2)]
+                hdr.handlers = []
+                hdr._handler_types = [dump(h.type) if h.type is not None else "None" for h in st.handlers]
+            else:
+                blocks = [self.stmts(st.body, b, a2)] + ([self.stmts(st.orelse, b, a2)] if getattr(st, "orelse", None) else [])
+            hdr.body, hdr.orelse, hdr.finalbody = [], [], []
+            return [dict(kind="compound", st=st, hdr=hdr, arm=arm or dep, dep=dep, blocks=blocks)]
+        if hasattr(ast, "Match") and isinstance(st, ast.Match):
+            self.site.opaque.append("match-statement")
+        new = self.subst(st, b)
+        dep = self.uses > u0
+        return [dict(kind="simple", st=new, arm=arm, dep=dep)]
+
+    def _polarity(self, test):
+        """True when the test is true under compile (flag=True)"""
+        sp = Spec(self.fn, Site("", "", ""), self.flagvars)
+        t = sp.subst(test, True, test=True)
+        return bool(t.value) if is_marker(t) else True
+
+
+# ------------------------------------------------------------------ tokens
+def bk_of_simple(st, side_compile):
+    """(category, name) pairs if the statement has the syntactic form of bookkeeping, else None"""
+    if isinstance(st, ast.Expr) and isinstance(st.value, ast.Call):
+        d = dotted(st.value.func)
+        return [("call", d)] if d else None
+    if isinstance(st, (ast.Assign, ast.AugAssign, ast.AnnAssign)):
+        tg = st.targets if isinstance(st, ast.Assign) else [st.target]
+        v = st.value
+        if (isinstance(st, ast.Assign) and len(tg) == 1 and isinstance(tg[0], ast.Name) and isinstance(v, ast.Call)
+                and isinstance(v.func, ast.Call) and dotted(v.func.func) in ("functools.wraps", "wraps")
+                and len(v.args) == 1 and isinstance(v.args[0], ast.Name) and v.args[0].id == tg[0].id):
+            return [("wraps", tg[0].id)]
+        out = []
+        for t in tg:
+            if isinstance(t, ast.Name):
+                out.append(("store", t.id))
+            elif isinstance(t, ast.Attribute):
+                out.append(("store", t.attr))
+            elif isinstance(t, ast.Subscript):
+                d = dotted(t.value)
+                if d is None:
+                    return None
+                if isinstance(t.slice, ast.Constant) and isinstance(t.slice.value, str):
+                    out.append(("store", d.split(".")[-1] + "[" + t.slice.value + "]"))
+                else:
+                    out.append(("store", d.split(".")[-1] + "[]"))
+            else:
+                return None
+        return out
+    if isinstance(st, ast.Raise) and side_compile:
+        e = st.exc.func if isinstance(st.exc, ast.Call) else st.exc
+        d = dotted(e) if e is not None else None
+        return [("refuse", d or "?")]
+    return None
+
+
+def cm_name(e):
+    if isinstance(e, ast.Call):
+        d = dotted(e.func)
+        if d and d.split(".")[-1] == "unlock_":
+            return "unlock_"
+        return d.split(".")[-1] if d else None
+    if isinstance(e, ast.IfExp):
+        a, b = cm_name(e.body), cm_name(e.orelse)
+        return (a + "|" + b) if a and b else None
+    d = dotted(e)
+    return d.split(".")[-1] if d else None
+
+
+def block_bk(nodes, side_compile):
+    """all leaves of the block are bookkeeping-shaped and every test on the way is pure -> list of pairs, else None"""
+    out = []
+    for n in nodes:
+        if n["kind"] == "simple":
+            r = bk_of_simple(n["st"], side_compile)
+            if r is None:
+                return None
+            out.extend(r)
+        else:
+            if not isinstance(n["hdr"], ast.If) or not pure(n["hdr"].test):
+                return None
+            for blk in n["blocks"]:
+                r = block_bk(blk, side_compile)
+                if r is None:
+                    return None
+                out.extend(r)
+    return out
+
+
+def _rebuild(n):
+    """the residual statement as an ast node (for the dump kept next to a bookkeeping-shaped block)"""
+    if n["kind"] == "simple":
+        return n["st"]
+    h = copy.copy(n["hdr"])
+    h.body = [_rebuild(x) for x in n["blocks"][0]] or [ast.Pass()]
+    if len(n["blocks"]) > 1:
+        h.orelse = [_rebuild(x) for x in n["blocks"][1]]
+    return h
+
+
+def tokens(nodes, side_compile, out):
+    for n in nodes:
+        if n["kind"] == "simple":
+            if not (n["arm"] or n["dep"]):
+                out.append(("V", short(dump(n["st"]), always=True)))
+                continue
+            r = bk_of_simple(n["st"], side_compile)
+            if r is not None:
+                out.append(("B", r, short(dump(n["st"]))))
+            else:
+                out.append(("V", short(dump(n["st"]))))
+            continue
+        hdr = n["hdr"]
+        if isinstance(hdr, (ast.With, ast.AsyncWith)) and (n["arm"] or n["dep"]):
+            names = [cm_name(i.context_expr) if i.optional_vars is None else None for i in hdr.items]
+            if all(names):
+                out.append(("B", [("with", x) for x in names], short(header_dump(hdr))))
+                tokens(n["blocks"][0], side_compile, out)
+                continue
+        if isinstance(hdr, ast.If) and (n["arm"] or n["dep"]) and pure(hdr.test):
+            r = block_bk([n], side_compile)
+            if r is not None and r:
+                out.append(("B", r, short(dump(_rebuild(n)))))
+                continue
+        h = header_dump(hdr)
+        if isinstance(hdr, ast.Try):
+            h += "handlers=" + ",".join(hdr._handler_types)
+        out.append(("O", short(h, always=not (n["arm"] or n["dep"]))))
+        for i, blk in enumerate(n["blocks"]):
+            if i:
+                out.append(("E", ""))
+            tokens(blk, side_compile, out)
+        out.append(("C", ""))
+
+
+# ------------------------------------------------------------------ per file
+def functions_of(tree):
+    """(qualname, FunctionDef) for every function, innermost scopes included"""
+    out = []
 
     def visit(node, qual):
         for ch in ast.iter_child_nodes(node):
-            if isinstance(ch, (ast.FunctionDef, ast.AsyncFunctionDef, ast.ClassDef)):
-                visit(ch, qual + [ch.name])
+            if isinstance(ch, FUNC_T + (ast.ClassDef,)):
+                q = qual + [ch.name]
+                if isinstance(ch, FUNC_T):
+                    out.append((".".join(q), ch))
+                visit(ch, q)
             else:
                 visit(ch, qual)
-        if isinstance(node, ast.Call):
-            f = node.func
-            name = f.id if isinstance(f, ast.Name) else (f.attr if isinstance(f, ast.Attribute) else None)
-            if name == "is_compiling":
-                out.add((rel, ".".join(qual) if qual else "<module>"))
     visit(tree, [])
+    return out
+
+
+def own_nodes(fn):
+    """nodes of fn's own scope (nested function / class / lambda bodies excluded, the nested node itself included)"""
+    todo = list(fn.body)
+    while todo:
+        n = todo.pop()
+        yield n
+        if isinstance(n, SCOPE_T):
+            continue
+        todo.extend(ast.iter_child_nodes(n))
+
+
+def analyse(rel, qual, fn, origin):
+    site = Site(rel, qual, origin)
+    flagvars = set()
+    params = [a.arg for a in fn.args.posonlyargs + fn.args.args + fn.args.kwonlyargs]
+    for p in params:
+        if p in FLAG_PARAMS:
+            flagvars.add(p)
+    for n in own_nodes(fn):
+        if isinstance(n, ast.Assign) and is_flag_call(n.value) and len(n.targets) == 1 and isinstance(n.targets[0], ast.Name):
+            flagvars.add(n.targets[0].id)
+    # a flag variable may only be written by `v = is_compiling()`
+    for n in own_nodes(fn):
+        if isinstance(n, (ast.Assign, ast.AugAssign, ast.AnnAssign, ast.For, ast.NamedExpr, ast.With)):
+            tg = []
+            if isinstance(n, ast.Assign):
+                tg = n.targets
+            elif isinstance(n, (ast.AugAssign, ast.AnnAssign, ast.NamedExpr, ast.For)):
+                tg = [n.target]
+            elif isinstance(n, ast.With):
+                tg = [i.optional_vars for i in n.items if i.optional_vars is not None]
+            for t in tg:
+                for x in ast.walk(t):
+                    if isinstance(x, ast.Name) and x.id in flagvars:
+                        if not (isinstance(n, ast.Assign) and is_flag_call(n.value) and len(n.targets) == 1):
+                            site.opaque.append("flag-variable-rebound")
+    for b in (True, False):
+        sp = Spec(fn, site, flagvars)
+        tree = sp.stmts(fn.body, b, False)
+        tokens(tree, b, site.tok[b])
+        if b:
+            site.nuses = sp.uses
+    # a surviving constant marker = a use no rule understood
+    return site
+
+
+def scan(root):
+    files = []
+    for d, dirs, fs in os.walk(root):
+        dirs[:] = sorted(x for x in dirs if x not in SKIP_DIRS)
+        for f in sorted(fs):
+            if f.endswith(".py"):
+                p = os.path.join(d, f)
+                files.append((os.path.relpath(p, root), ast.parse(open(p).read())))
+    call_sites = set()
+    sites = {}
+    module_level = []
+    # pass 1: functions that call is_compiling()
+    per_file = {}
+    for rel, tree in files:
+        funcs = functions_of(tree)
+        per_file[rel] = funcs
+        innermost = {}
+        for q, fn in funcs:
+            for n in own_nodes(fn):
+                if any_flag_call(n):
+                    innermost.setdefault(id(fn), (q, fn))
+        covered = set()
+        for q, fn in innermost.values():
+            call_sites.add((rel, q))
+            s = analyse(rel, q, fn, "call")
+            sites.setdefault((rel, q), []).append((fn.lineno, s))
+            for n in own_nodes(fn):
+                if any_flag_call(n):
+                    covered.add(id(n))
+        for n in ast.walk(tree):
+            if any_flag_call(n) and id(n) not in covered:
+                module_level.append((rel, n.lineno))
+    # the flag function handed around as an object (not called) would escape the analysis: refuse
+    for rel, tree in files:
+        calls = {id(n.func) for n in ast.walk(tree) if isinstance(n, ast.Call)}
+        params = {}
+        for q, fn in per_file[rel]:
+            ps = {a.arg for a in fn.args.posonlyargs + fn.args.args + fn.args.kwonlyargs}
+            for n in own_nodes(fn):
+                params[id(n)] = ps
+        for n in ast.walk(tree):
+            is_ref = (isinstance(n, ast.Name) and n.id == FLAG_FN) or (isinstance(n, ast.Attribute) and n.attr == FLAG_FN)
+            if is_ref and isinstance(n.ctx, ast.Load) and id(n) not in calls and FLAG_FN not in params.get(id(n), ()):
+                raise TranslateError(f"{rel}:{n.lineno}: is_compiling referenced without being called")
+    if module_level:
+        raise TranslateError(f"is_compiling() called outside a function body (decorator/default/module level): {module_level[:3]}")
+    # pass 2: functions that receive the flag through a keyword parameter named in a forward edge
+    fw = set()
+    for lst in sites.values():
+        for _, s in lst:
+            fw |= set(s.forwards)
+    done = set()
+    while fw - done:
+        callee, kw = sorted(fw - done)[0]
+        done.add((callee, kw))
+        found = 0
+        for rel, funcs in per_file.items():
+            for q, fn in funcs:
+                params = [a.arg for a in fn.args.posonlyargs + fn.args.args + fn.args.kwonlyargs]
+                if fn.name == callee and kw in params:
+                    found += 1
+                    if any(ln == fn.lineno for ln, _ in sites.get((rel, q), [])):
+                        continue
+                    s = analyse(rel, q, fn, "param")
+                    sites.setdefault((rel, q), []).append((fn.lineno, s))
+                    fw |= set(s.forwards)
+        if not found:
+            raise TranslateError(f"the flag is forwarded as {kw}= to {callee}() but no function of that name takes it")
+    return sorted(call_sites), sites
+
+
+# ------------------------------------------------------------------ Coq output
+def cs(s):
+    s = "".join(ch if 32 <= ord(ch) < 127 else "?" for ch in s)
+    return '"' + s.replace('"', '""') + '"'
+
+
+def clist(items, sep="; "):
+    return "[" + sep.join(items) + "]"
+
+
+def ctok(t):
+    k, v = t[0], t[1]
+    if k == "V":
+        return "TVal " + cs(v)
+    if k == "O":
+        return "TOpen " + cs(v)
+    if k == "E":
+        return "TElse"
+    if k == "C":
+        return "TClose"
+    return "TBk " + clist(["(" + cs(a) + ", " + cs(b) + ")" for a, b in v]) + " " + cs(t[2])
+
+
+def merged(sites):
+    """one record per (file, qualname): functions sharing a qualified name (two `wrapped_func` variants) are concatenated"""
+    out = []
+    for (rel, q), lst in sorted(sites.items()):
+        lst = sorted(lst, key=lambda x: x[0])
+        m = Site(rel, q, "call" if any(s.origin == "call" for _, s in lst) else "param")
+        for _, s in lst:
+            m.shapes += s.shapes
+            m.opaque += s.opaque
+            m.forwards += s.forwards
+            m.dropped += s.dropped
+            for b in (True, False):
+                m.tok[b] = m.tok[b] + ([("V", "---next-definition---")] if len(lst) > 1 and s is not lst[0][1] else []) + s.tok[b]
+        out.append(m)
     return out
 
 
@@ -34,19 +614,23 @@ def c18_sites():
     root = os.path.join(REPO, "tensordict")
     if not os.path.isdir(root):
         raise TranslateError("tensordict package not found")
-    sites = set()
-    for d, dirs, files in os.walk(root):
-        dirs[:] = [x for x in dirs if x not in SKIP_DIRS]
-        for f in files:
-            if f.endswith(".py"):
-                p = os.path.join(d, f)
-                sites |= sites_of(p, os.path.relpath(p, root))
-    if len(sites) < 10:
+    call_sites, sites = scan(root)
+    if len(call_sites) < 10:
         raise TranslateError("suspiciously few is_compiling sites: the source layout changed")
-    sites = sorted(sites)
+    recs = merged(sites)
+    body = []
+    for m in recs:
+        body.append(
+            "  {| s_file := %s; s_func := %s; s_origin := %s;\n     s_shapes := %s;\n     s_opaque := %s;\n     s_forwards := %s;\n"
+            "     s_compile := %s;\n     s_eager := %s |}" % (
+                cs(m.rel), cs(m.qual), cs(m.origin), clist([cs(x) for x in m.shapes]),
+                clist([cs(x) for x in sorted(set(m.opaque))]),
+                clist(["(" + cs(a) + ", " + cs(b) + ")" for a, b in sorted(set(m.forwards))]),
+                clist([ctok(t) for t in m.tok[True]], ";\n       "), clist([ctok(t) for t in m.tok[False]], ";\n       ")))
     txt = ("(* GENERATED from /repo by harness/tr_c18.py on every run of ./check C18 *)\n"
-           "From Coq Require Import List String.\nImport ListNotations.\nOpen Scope string_scope.\n"
+           "From Coq Require Import List String.\nImport ListNotations.\nFrom TD Require Import Model.C18_SiteShape.\nOpen Scope string_scope.\n"
            "Definition compile_sites : list (string * string) :=\n  "
-           + coq_list(["(" + coq_str(a) + ", " + coq_str(b) + ")" for a, b in sites]) + ".\n")
+           + clist(["(" + cs(a) + ", " + cs(b) + ")" for a, b in call_sites]) + ".\n\n"
+           "Definition site_shapes : list site :=\n[\n" + ";\n".join(body) + "\n].\n")
     write_if_changed(os.path.join(COQ, "Gen", "C18_sites.v"), txt)
-    return sites
+    return {"call_sites": call_sites, "records": recs}
